@@ -216,6 +216,8 @@ def scenario(g, el, name, tdata, lib):
         s["load"] = [3 ** 0.5 * s["vn"] * tdata["max_i_ka"] * R(0.1, 0.6), R(-0.2, 0.4)]
         s["alpha_col"] = B(0.3)
         s["temp"] = R(25, 90) if s["alpha_col"] else None
+        if s["alpha_col"] and "alpha" in tdata:
+            s["pf"]["consider_line_temperature"] = True
     elif el == "trafo":
         s["tap_pos"] = None
         if "tap_min" in tdata and "tap_max" in tdata and B(0.75):
@@ -432,9 +434,15 @@ def mech_row(el, how, missing, net, idx):
         row = net.trafo.loc[idx].reindex(sorted(keys))
         if all((k == "shift_degree" and row[k] == 0) or (k != "shift_degree" and _empty(row[k])) for k in keys):
             return "create_transformers_drops_shift_and_tap"
-    if el == "line" and how in ("batch", "batch_list") and keys and keys <= set(ZERO_L):
-        if all(k not in net.line.columns or pd.isna(net.line.at[idx, k]) for k in keys):
-            return "create_lines_drops_zero_sequence"
+    if el in ("line", "line_dc") and how in ("batch", "batch_list") and keys and keys <= set(ZERO_L) | {"alpha"}:
+        # create_lines / create_lines_dc copy r, x, c, max_i, g and type only; create_line also copies the zero sequence
+        # triple and (when the column exists) alpha.  The row then holds the empty default.
+        if all(k not in net[el].columns or _empty(net[el].at[idx, k]) for k in keys):
+            return "batch_line_creators_drop_optional_type_params"
+    if el == "line_dc" and how == "single" and keys == {"alpha"} and "alpha" in net.line_dc.columns and "alpha" not in net.line.columns \
+            and _empty(net.line_dc.at[idx, "alpha"]):
+        # create_line_dc looks for the alpha column in net.line instead of net.line_dc
+        return "create_line_dc_checks_alpha_in_line_table"
     return None
 
 
@@ -591,7 +599,7 @@ def element_case(g, el, name, tdata, builtin, tags, ex, viols):
 
 def line_dc_case(g, name, tdata, lib_extra, s, tags, ex, viols):
     c = template()
-    rows = {}
+    rows, mechs = {}, {}
     alpha_col = g.B(0.5)
     for how in ("single", "batch", "explicit"):
         net = copy.deepcopy(c["net"])
@@ -616,9 +624,11 @@ def line_dc_case(g, name, tdata, lib_extra, s, tags, ex, viols):
         if how != "explicit":
             missing = row_check(net, "line_dc", i, tdata, j, how, name)
             ex["row_params_checked"] += len(j)
+            mechs[how] = (mech_row("line_dc", how, missing, net, i), {k for k, _, _ in missing}) if missing else (None, set())
             if missing:
                 viols.append(common.viol("create line_dc (%s): type parameters not applied to the row: %s" % (
-                    how, ", ".join("%s expected %r found %r" % x for x in missing[:6])), element="line_dc", std_type=name, type_data=tdata, how=how))
+                    how, ", ".join("%s expected %r found %r" % x for x in missing[:6])), mechanism=mechs[how][0], element="line_dc",
+                    std_type=name, type_data=tdata, how=how, alpha_in_line_dc=alpha_col))
         rows[how] = net.line_dc.loc[i]
     if "explicit" in rows:
         for how in ("single", "batch"):
@@ -627,7 +637,8 @@ def line_dc_case(g, name, tdata, lib_extra, s, tags, ex, viols):
                     if col in j | {"length_km", "df", "parallel", "in_service", "from_bus_dc", "to_bus_dc"} and col in rows[how].index \
                             and not _same(rows[how][col], rows["explicit"][col]):
                         viols.append(common.viol("line_dc from type (%s) differs from explicit twin in %s: %r vs %r" % (
-                            how, col, rows[how][col], rows["explicit"][col]), element="line_dc", std_type=name, type_data=tdata))
+                            how, col, rows[how][col], rows["explicit"][col]), mechanism=mechs[how][0] if col in mechs[how][1] else None,
+                            element="line_dc", std_type=name, type_data=tdata))
     return len(rows) == 3
 
 
@@ -928,7 +939,7 @@ def run_case(seed, tier, case_no):
         el, name = c["builtin"][case_no]
         tdata = c["net"].std_types[el][name]
     else:
-        el = g.C(["line", "line", "trafo", "trafo", "trafo3w", "fuse", "line_dc"])
+        el = g.C(["line", "line", "line", "trafo", "trafo", "trafo", "trafo3w", "trafo3w", "fuse", "line_dc"])
         tdata = rnd_type(g, el)
         name = g.C(["rnd %s" % el, "123", "Tÿpe/1 x", "a" * 30])
     tdata_in = copy.deepcopy(tdata)
